@@ -830,11 +830,39 @@ def check(prog, run):
                 run.check(f_ in stored[o_], "R4", "%s maintains %s (judged elsewhere)" % (mir.norm(o_), f_), "stored on success",
                           "`%s` is read by a rejection guard of a frame-writing entry point or decides a branch / result of another method of the muxer, and is maintained by %s, but %s (same queue) never stores it: after frames written through %s the other calls are judged against stale state" %
                           (f_, ", ".join(mir.norm(x_).split("::")[-1] for x_ in g_ if f_ in stored[x_]), mir.norm(o_), mir.norm(o_).split("::")[-1]), mir.loc_of(u.bodies[o_]))
+    # ... and in the same way: a field both video entries maintain from the same parameter is stored under the same guards with
+    # the same value expression (`first_video_pts`: once, `Some(pts)`, in both)
+    for g_ in groups:
+        desc = {}
+        for o_ in g_:
+            ob_ = u.bodies[o_]
+            ROLE_NAMES.clear()
+            for i_ in range(1, ob_["argc"] + 1):
+                ROLE_NAMES[i_] = mir.debug_name(ob_, i_)
+            CUR_BODY[:] = [ob_]
+            for (sbb_, si_, (root_, path_), why_, node_) in cx.st.sites.get(o_, []):
+                if root_ == ("arg", 1) and len(path_) == 1 and why_.startswith("assign") and "rv" in node_ and path_[0] in all_reads:
+                    ve_ = sym.expr_rv(ob_, node_["rv"])
+                    params_ = frozenset(x_[2] for x_ in sym.sources(ve_) if x_[0] == "arg")
+                    sg_ = tuple(signature(d_, t_) for (s__, d_, t_) in guards.guards_of(ob_, sbb_) if "state:" + path_[0] in signature(d_, t_))
+                    desc.setdefault(path_[0], {}).setdefault(o_, set()).add((sg_, sym.show(ve_)[:200], params_))
+            CUR_BODY[:] = []
+        for f_, per in sorted(desc.items()):
+            if len(per) != len(g_):
+                continue
+            ps_ = [frozenset().union(*[d_[2] for d_ in ds_]) for ds_ in per.values()]
+            if len(set(ps_)) != 1:
+                continue            # maintained from different parameters (pts in one entry, dts in the other): not comparable by text
+            vals_ = [frozenset((d_[0], d_[1]) for d_ in ds_) for ds_ in per.values()]
+            run.check(len(set(vals_)) == 1, "R4", "siblings store %s alike" % f_, "same guard and value in %s" % ", ".join(mir.norm(x_).split("::")[-1] for x_ in g_),
+                      "the video entry points maintain `%s` differently (%s): calls judged against it get a different answer depending on which entry point wrote the frames" % (
+                          f_, "; ".join("%s: %s" % (mir.norm(o_).split("::")[-1], sorted(("%s => %s" % (" && ".join(d_[0]) or "always", d_[1])) for d_ in ds_)) for o_, ds_ in sorted(per.items()))), mir.loc_of(u.bodies[g_[-1]]))
     r5(cx, run)
     run.rule("R11", "a first keyframe carrying its parameter sets is accepted wherever they stand in the frame: the extractors find them for every header byte of any other unit before or after them (C07.R13 instances)")
     from . import c07
     c07.parameter_set_table_rule(prog, run, "R11")
     c07.av1_seq_position_rule(prog, run, "R11")
+    c07.leb128_rule(prog, run, "R11")
     run.rule("R12", "the builder keeps every configured audio stream (codec other than None) with its rate and channel count, enables the writer's audio track exactly then, and never otherwise (tabulated over codecs x rates x channel counts)")
     builder_audio_table(prog, run, "R12")
     run.rule("R10", "finish refuses only when already finished, when the sink fails or when a size does not fit 32 bits: every error exit / `?` of the finalisation tree is of one of these kinds")
